@@ -10,13 +10,18 @@
 (* every DECIDED body.  Whether the code still follows the transcription   *)
 (* (Machine) is reported as DRIFT, not as a violation: it tells that the   *)
 (* model checking results of MC_MacroBody no longer speak about this code. *)
+(* Every bound value must be Closed (MacroActual): an actual argument that *)
+(* ends inside a one-line comment would swallow what follows the formal    *)
+(* and the text behind the usage (D27).                                    *)
 (***************************************************************************)
-EXTENDS MacroBody, Json, IOUtils
+EXTENDS MacroBody, MacroActual, Json, IOUtils
 Rec == ndJsonDeserialize(IOEnv.TRACE)
 
 Judge(r) ==
-  LET x == Ref(r.body, r.formals) IN
-  IF ~x.dec THEN <<>>
+  LET x == Ref(r.body, r.formals)
+      open == {k \in 1..Len(r.formals) : ~Closed(r.formals[k][2])} IN
+  IF open # {} THEN <<"a bound actual argument ends inside a one-line comment (its line break was lost)", ToString(r.formals[CHOOSE k \in open : TRUE])>>
+  ELSE IF ~x.dec THEN <<>>
   ELSE IF StripLead(r.replaced) # StripLead(x.out)
        THEN <<"substituted body differs from the IEEE 22.5.1 reading", ToString(Flat(<< r.body >>)), "code", ToString(r.replaced), "expected", ToString(x.out)>>
        ELSE <<>>
